@@ -600,6 +600,8 @@ def run(ctx):
                 break
 
     for c, r in zip(eta_cases, etares):
+        if r["obs"][0] == 2:
+            pred_fail.append(("C16:entries-to-apply", "entriesToApply panics on committed entries that start at or before appliedIndex+1", {"case": c}))
         if r["obs"][0] == 1:
             want = [i for i in c["idxs"] if i > c["appliedidx"]]
             if r["obs"][1:] != want:
